@@ -46,6 +46,7 @@ type AwsCase struct {
 	PreFail   int      `json:"prefail"`  // consecutive failed fleet attempts before this call (never-ready)
 	// del: the nodes handed to DeleteNodes, by name; a name outside m1..m<nmemb> is a foreign node
 	List []string `json:"list"`
+	DelRet string `json:"delRet"` // delinc: what DeleteNodes returned (filled in by the harness)
 }
 
 func (c AwsCase) faults() []world.Fault {
@@ -160,6 +161,15 @@ func runAwsCase(c AwsCase) AwsObs {
 	j.Begin(c.faults())
 	switch c.Kind {
 	case "inc":
+		call(func() error { return ng.IncreaseSize(int64(c.D)) })
+	case "delinc":
+		var nodes []*v1.Node
+		for _, n := range c.List {
+			nodes = append(nodes, &v1.Node{ObjectMeta: metav1.ObjectMeta{Name: n}, Spec: v1.NodeSpec{ProviderID: "aws:///az1/" + n}})
+		}
+		call(func() error { return ng.DeleteNodes(nodes...) })
+		obs.Case.DelRet, obs.Ret = obs.Ret, "nil"
+		j.SetFaults(nil)
 		call(func() error { return ng.IncreaseSize(int64(c.D)) })
 	case "del":
 		var nodes []*v1.Node
